@@ -74,6 +74,7 @@ type c16Witness struct {
 
 // c16Env is one fake server (UDP + TCP on one port) with its two upstream handles.
 type c16Env struct {
+	arrivals map[string]int // UDP datagrams seen per question (tclate)
 	group   string
 	port    int
 	udp     *scripted.Server
@@ -85,7 +86,7 @@ type c16Env struct {
 }
 
 func c16NewEnv(group string) (*c16Env, error) {
-	e := &c16Env{group: group, scripts: map[string]*c16Ex{}, ups: map[string]upstream.Upstream{}}
+	e := &c16Env{group: group, scripts: map[string]*c16Ex{}, arrivals: map[string]int{}, ups: map[string]upstream.Upstream{}}
 	look := func(name string) *c16Ex {
 		e.mu.Lock()
 		defer e.mu.Unlock()
@@ -101,6 +102,17 @@ func c16NewEnv(group string) (*c16Env, error) {
 			return scripted.Action{Tag: "udp-tc", TC: true, Leg: scripted.LegUDP}
 		case "silent":
 			return scripted.Action{Tag: "udp-silent", Drop: true}
+		case "okslow": // a complete reply, but only after 2.6 s
+			return scripted.Action{Tag: "udp-ok-slow", Leg: scripted.LegUDP, Delay: 2600 * time.Millisecond}
+		case "tclate": // truncated; the first datagram of a question is answered after 1.5 s, any further one at once
+			e.mu.Lock()
+			e.arrivals[q.Name]++
+			n := e.arrivals[q.Name]
+			e.mu.Unlock()
+			if n == 1 {
+				return scripted.Action{Tag: "udp-tc-late", TC: true, Leg: scripted.LegUDP, Delay: 1500 * time.Millisecond}
+			}
+			return scripted.Action{Tag: "udp-tc", TC: true, Leg: scripted.LegUDP}
 		}
 		return scripted.Action{Tag: "udp-ok", Leg: scripted.LegUDP}
 	})
@@ -518,6 +530,7 @@ func runC16(c *Ctx) {
 	// sequential TC=0 series on a fresh upstream and server: no TCP connection at all
 	c16NoTCP(c)
 	c16AfterFailures(c)
+	c16Slow(c)
 	c.Ev.Set("race_reports_logged_not_judged_here", upRaceReports(c))
 }
 
@@ -616,5 +629,59 @@ func c16AfterFailures(c *Ctx) {
 			c.Ev.Distinct("after-failures", g, "tcp-leg-works")
 		}
 		e.close()
+	}
+}
+
+
+// c16Slow: the UDP reply decides, however long it takes. A complete reply that arrives after 2.6 s
+// is returned as received and nothing is sent over TCP; a truncated reply that arrives after 1.5 s
+// leads to the TCP exchange whose outcome is returned (also if the transport sent the question over
+// UDP more than once meanwhile: every UDP reply is truncated).
+func c16Slow(c *Ctx) {
+	e, err := c16NewEnv("listen")
+	if err != nil {
+		c.Inconclusive("C16 setup: " + err.Error())
+		return
+	}
+	defer e.close()
+	var exs []*c16Ex
+	for i := 0; i < c.N(8, 40); i++ {
+		r := gen.New(c.Seed, "c16-slow", i)
+		ex := c16Gen(r, 800000+i, []string{"okslow", "tclate"}[i%2], "ok")
+		ex.DeadMs = 5000
+		exs = append(exs, ex)
+	}
+	var wg sync.WaitGroup
+	for _, ex := range exs {
+		wg.Add(1)
+		go func(ex *c16Ex) { defer wg.Done(); c16Do(e, ex) }(ex)
+	}
+	wg.Wait()
+	time.Sleep(30 * time.Millisecond)
+	lg := c16Collect(e)
+	for _, ex := range exs {
+		c.Ev.Eval(1)
+		tcpN := len(lg.tcpQ[ex.Name])
+		w := c16Witness{Exchange: ex, Rule: "slow-udp-reply", UDPSeen: lg.udpQ[ex.Name], TCPSeen: lg.tcpQ[ex.Name], UDPSent: lg.udpR[ex.Name], TCPSent: lg.tcpR[ex.Name]}
+		switch ex.UDP {
+		case "okslow":
+			switch {
+			case tcpN > 0:
+				c.Violation("tcp-attempt-without-tc:slow-udp-reply", fmt.Sprintf("exchange %q: the UDP reply (TC=0) was sent after 2.6 s, well inside the 5 s deadline, yet the question arrived over TCP %d time(s)", ex.Name, tcpN), w)
+			case !ex.Returned || ex.Leg != "U":
+				c.Violation("udp-reply-not-returned:slow-udp-reply", fmt.Sprintf("exchange %q: the complete UDP reply sent after 2.6 s (deadline 5 s) was not what the exchange returned (returned=%v leg=%q err=%s)", ex.Name, ex.Returned, ex.Leg, ex.Err), w)
+			default:
+				c.Ev.Distinct("slow", "okslow", ex.Form)
+			}
+		case "tclate":
+			switch {
+			case ex.Returned && ex.Leg == "U" && ex.GotTC:
+				c.Violation("returned-truncated-udp-message:late-tc", fmt.Sprintf("exchange %q returned a truncated UDP reply (the server answered %d UDP datagrams for it, all with TC=1; the TCP side is healthy)", ex.Name, len(lg.udpR[ex.Name])), w)
+			case !ex.Returned || ex.Leg != "T":
+				c.Violation("tcp-outcome-not-returned:late-tc", fmt.Sprintf("exchange %q: every UDP reply was truncated (first one after 1.5 s), the TCP side answers at once, deadline 5 s: returned=%v leg=%q err=%s, TCP arrivals %d", ex.Name, ex.Returned, ex.Leg, ex.Err, tcpN), w)
+			default:
+				c.Ev.Distinct("slow", "tclate", ex.Form, len(lg.udpQ[ex.Name]) > 1)
+			}
+		}
 	}
 }
